@@ -97,6 +97,11 @@ def make_data(d):
             dd["T"] = t
             dd["seed"] = int(d["seed"]) * 1000 + i
             out.append(make_series(dd))
+        if d.get("nan_gap") and len(out) > 1:
+            # a missing sample near the start of a later series (a gap must never be bridged with another recording's values)
+            tgt = np.array(out[-1], dtype=np.float64)
+            tgt[min(1, tgt.shape[0] - 1), 0] = np.nan
+            out[-1] = tgt
         return out
     return make_series(d)
 
